@@ -345,6 +345,8 @@ def show(t: Any) -> str:
         return f"{t[1]}{{{', '.join(show(x) for x in t[2])}}}"
     if k == "fn":
         return t[1]
+    if k == "sentinel":
+        return t[1].rpartition(".")[2]
     if k == "store":
         return f"{show(t[1])}.{t[2] if isinstance(t[2], str) else '[' + show(t[2][1]) + ']'} := {show(t[3])}"
     if k == "fstr":
@@ -849,6 +851,10 @@ class Evaluator:
             if isinstance(tgt, FunctionInfo):
                 return ("fn", tgt.qualname)
             if isinstance(tgt, tuple) and tgt[0] == "const":
+                v0 = tgt[1]
+                if isinstance(v0, ast.Call) and isinstance(v0.func, ast.Name) and v0.func.id == "object" and not v0.args and not v0.keywords:
+                    # a module-level ``object()`` is one particular object: a marker compared by identity
+                    return ("sentinel", f"{tgt[2].name}.{e.id}")
                 return self.expr(tgt[1], Frame(None, tgt[2], {}, None, fr.depth + 1))
             return ("global", e.id)
         if isinstance(e, ast.Attribute):
@@ -956,12 +962,12 @@ class Evaluator:
                 gens.append((it, conds))
             key_t, val_t = self.expr(e.key, inner), self.expr(e.value, inner)
             if len(gens) == 1 and not gens[0][1] and gens[0][0][0] in ("tuple", "list") and len(gens[0][0][1]) <= 24 \
-                    and not any(x[0] == "star" for x in gens[0][0][1]) and isinstance(e.generators[0].target, ast.Name):
+                    and not any(x[0] == "star" for x in gens[0][0][1]):
                 # a dict comprehension over a display of known length is the display of its entries (names re-evaluated per item: getattr(x, name))
                 items = []
                 for item in gens[0][0][1]:
                     fr_i = Frame(fr.fn, fr.module, dict(fr.env), fr.self_cls, fr.depth)
-                    fr_i.env[e.generators[0].target.id] = item
+                    self.bind_target(e.generators[0].target, item, fr_i)
                     items.append((self.expr(e.key, fr_i), self.expr(e.value, fr_i)))
                 return ("dict", tuple(items))
             return ("dictcomp", key_t, val_t, tuple(gens))
@@ -1012,7 +1018,7 @@ class Evaluator:
 
     def _single_ref(self, f: FunctionInfo) -> bool:
         """a module-level function that is mentioned at exactly one place in the package (its one caller): a piece split off that caller"""
-        if f.kind != "function" or f.cls is not None or f.name.startswith("__"):
+        if f.kind not in ("function", "method", "staticmethod") or (f.kind == "function" and f.cls is not None) or f.name.startswith("__"):
             return False
         cache = self.model.__dict__.setdefault("_name_refs", None)
         if cache is None:
@@ -1119,8 +1125,10 @@ class Evaluator:
         if isinstance(target, ast.Name):
             fr.env[target.id] = v
         elif isinstance(target, (ast.Tuple, ast.List)):
+            concrete = v[0] in ("tuple", "list") and len(v[1]) == len(target.elts) and not any(x[0] == "star" for x in v[1]) \
+                and not any(isinstance(t, ast.Starred) for t in target.elts)
             for i, t in enumerate(target.elts):
-                self.bind_target(t, ("item", v, i), fr)
+                self.bind_target(t, v[1][i] if concrete else ("item", v, i), fr)
         else:
             raise Unsupported("comprehension target")
 
@@ -1153,6 +1161,10 @@ class Evaluator:
         if op in ("==", "!=") and a[0] == "tuple" and b[0] == "tuple" and len(a[1]) == len(b[1]):
             c = t_and(*[t_cmp("==", x, y) for x, y in zip(a[1], b[1])])
             return c if op == "==" else t_not(c)
+        while b[0] == "call" and b[1] in ("frozenset", "set", "tuple", "list") and len(b[2]) == 1 and not b[3] and b[2][0][0] in ("list", "tuple", "set"):
+            b = b[2][0]      # membership does not depend on the container kind
+        if b[0] == "bag":
+            b = ("set", b[2])
         if op in ("in", "notin") and b[0] in ("list", "tuple", "set") and not any(x[0] == "star" for x in b[1]):
             c = t_or(*[t_cmp("==", a, x) for x in b[1]])
             return c if op == "in" else t_not(c)
@@ -1162,6 +1174,14 @@ class Evaluator:
                 if x in (TRUE, FALSE) and y[0] in ("not", "and", "or", "eq", "cmp", "in", "isinstance", "quant"):
                     same = (x == TRUE) == (op in ("is", "=="))
                     return y if same else t_not(y)
+        if op in ("is", "isnot", "==", "!=") and "sentinel" in (a[0], b[0]) and a != b:
+            mark, other = (a, b) if a[0] == "sentinel" else (b, a)
+            if other[0] == "ite":
+                return t_ite(other[1], self.compare(op, mark, other[2], fr), self.compare(op, mark, other[3], fr))
+            if other[0] == "sentinel" or _never_none(other) or other == NONE or (other[0] == "sub" and self._marker_is_private(mark)):
+                return FALSE if op in ("is", "==") else TRUE
+        if op in ("is", "isnot", "==", "!=") and a == b and a[0] == "sentinel":
+            return TRUE if op in ("is", "==") else FALSE
         if op in ("is", "isnot", "==", "!=") and NONE in (a, b):
             other = b if a == NONE else a
             if _never_none(other) or self._returns_object(other):
@@ -1173,6 +1193,30 @@ class Evaluator:
                 # an element of a list annotated List[<package class>] is an object of that class
                 return FALSE if op in ("is", "==") else TRUE
         return t_cmp(op, a, b)
+
+    def _marker_is_private(self, mark: Term) -> bool:
+        """The marker object is only ever handed over as a default and compared: it is never stored, so no table entry is the marker."""
+        cache = self.__dict__.setdefault("_marker_cache", {})
+        if mark[1] in cache:
+            return cache[mark[1]]
+        modname, _, name = mark[1].rpartition(".")
+        ok = True
+        for m in self.model.modules.values():
+            if m.name != modname:
+                if any(name == (a.asname or a.name) or name == a.name for n in ast.walk(m.tree) if isinstance(n, ast.ImportFrom) for a in n.names):
+                    ok = False
+                continue
+            allowed = set()
+            for n in ast.walk(m.tree):
+                if isinstance(n, ast.Compare):
+                    allowed.update(id(x) for x in [n.left] + list(n.comparators))
+                elif isinstance(n, ast.Call) and isinstance(n.func, (ast.Attribute, ast.Name)) and (n.func.attr if isinstance(n.func, ast.Attribute) else n.func.id) in ("get", "getattr", "next", "pop"):
+                    allowed.update(id(x) for x in list(n.args)[1:] + [k.value for k in n.keywords])
+            for n in ast.walk(m.tree):
+                if isinstance(n, ast.Name) and n.id == name and isinstance(n.ctx, ast.Load) and id(n) not in allowed:
+                    ok = False
+        cache[mark[1]] = ok
+        return ok
 
     # -- attribute access ---------------------------------------------------------------
     def attr(self, base: Term, name: str, fr: Frame, node: Optional[ast.AST] = None) -> Term:
@@ -1384,6 +1428,9 @@ class Evaluator:
                 return ("call", "hash", (base,), ())
             if name == "__contains__" and len(args) == 1 and not kwargs:
                 return self.compare("in", args[0], base, fr)
+            if name == "get" and base[0] != "dict" and len(args) == 2 and not kwargs and args[1][0] == "sentinel":
+                # ``table.get(key, MARKER)``: the entry of a known key, the marker otherwise
+                return t_ite(self.compare("in", args[0], base, fr), ("sub", base, args[0]), args[1])
             if name == "get" and base[0] == "dict" and args:
                 for k, v in base[1]:
                     if k == args[0]:
@@ -1444,18 +1491,23 @@ class Evaluator:
                 res.append(Outcome(o.cond, "return", NONE, d))
         return self.merge(res) if res else None
 
-    def apply_callable(self, f: Term, arg: Term, fr: Frame) -> Optional[Term]:
+    def apply_callable(self, f: Term, arg: Term, fr: Frame, more: Tuple[Term, ...] = ()) -> Optional[Term]:
+        more = list(more)
+        if more and not (f[0] in ("cls", "fn", "attr", "localdef") or (f[0] == "lambda" and f[1] in self.lambdas)):
+            return None
         if f[0] == "localdef" and f[1] in self.localdefs:
-            return self.apply_local(self.localdefs[f[1]], [arg], fr)
+            return self.apply_local(self.localdefs[f[1]], [arg] + more, fr)
         """f(arg) for the callables that occur as ``key=`` / ``map`` / ``filter`` arguments: a lambda with its closure, ``attrgetter('a')``, a class
         (construction), a package function, a bound method."""
         if f[0] == "lambda" and f[1] in self.lambdas:
             node, cenv, cfr = self.lambdas[f[1]]
             la = node.args
             names = [a.arg for a in la.posonlyargs + la.args]
-            if len(names) == 1 and not la.vararg and not la.kwarg:
+            if len(names) == 1 + len(more) and not la.vararg and not la.kwarg:
                 env2 = dict(cenv)
                 env2[names[0]] = arg
+                for n_, v_ in zip(names[1:], more):
+                    env2[n_] = v_
                 return self.expr(node.body, Frame(cfr.fn, cfr.module, env2, cfr.self_cls, fr.depth + 1))
             return None
         if f[0] == "call" and (f[1] == "attrgetter" or f[1] == ("global", "attrgetter") or (isinstance(f[1], tuple) and f[1][-1:] == ("attrgetter",))) \
@@ -1496,20 +1548,25 @@ class Evaluator:
         if f[0] == "cls":
             c = self.model.maybe_cls(f[1])
             if c is not None:
-                return self.construct(c, [arg], [], fr)
+                return self.construct(c, [arg] + more, [], fr)
         if f[0] == "fn":
             cands = [x for x in self.model.all_functions() if x.qualname == f[1]]
             if len(cands) == 1 and cands[0].kind in ("function", "staticmethod"):
-                return self.call_function(cands[0], None, None, [arg], [], fr)
+                return self.call_function(cands[0], None, None, [arg] + more, [], fr)
             if len(cands) == 1 and cands[0].kind == "method":
-                return self.call_function(cands[0], arg, self.type_of(arg) or cands[0].cls, [], [], fr)
+                return self.call_function(cands[0], arg, self.type_of(arg) or cands[0].cls, more, [], fr)
         if f[0] == "attr":
             bc = self.type_of(f[1])
             if bc is not None:
                 fs = bc.resolve_all(f[2])
                 if len(fs) == 1 and fs[0].kind in ("method", "staticmethod", "classmethod"):
-                    return self.call_function(fs[0], f[1], bc, [arg], [], fr)
-            return ("call", f, (arg,), ())
+                    # a method that is only ever used as this one callable is a piece of its user
+                    self._via_callable = True
+                    try:
+                        return self.call_function(fs[0], f[1], bc, [arg] + more, [], fr)
+                    finally:
+                        self._via_callable = False
+            return ("call", f, (arg,) + tuple(more), ())
         return None
 
     def _functional(self, fname: Optional[str], e: ast.Call, args: List[Term], kwargs, fr: Frame) -> Optional[Term]:
@@ -1521,6 +1578,20 @@ class Evaluator:
         tail2 = ".".join(fname.split(".")[-2:])
         if isinstance(e.func, ast.Name) and self.model.lookup_symbol(fr.module, e.func.id) is not None:
             return None     # a package symbol of that name
+        if short == "map" and len(args) > 2:
+            # map(f, xs, repeat(c), ...) is [f(x, c, ...) for x in xs]
+            def rep_of(a):
+                return a[2][0] if a[0] == "call" and (a[1] in ("repeat", ("global", "repeat")) or (isinstance(a[1], tuple) and a[1][-1:] == ("repeat",))) and len(a[2]) == 1 and not a[3] else None
+            var_pos = [k for k, a in enumerate(args[1:]) if rep_of(a) is None]
+            if var_pos == [0]:
+                dom = args[1]
+                b = ("bound", fr.depth, 0, show(dom))
+                ec = self.elem_type(dom)
+                if ec is not None:
+                    self.set_type(b, ec)
+                img = self.apply_callable(args[0], b, fr, tuple(rep_of(a) for a in args[2:]))
+                return ("comp", "gen", img, ((dom, ()),)) if img is not None else None
+            return None
         if short in ("map", "filter", "filterfalse") and len(args) == 2:
             dom = args[1]
             b = ("bound", fr.depth, 0, show(dom))
